@@ -140,6 +140,106 @@ func specialiseTablePhis(fn *ssa.Function, optional bool) bool {
 				}
 			}
 		}
+		// the per-iteration copies of an unrolled loop's row variable (`m := m`),
+		// selected by the iterations' `break`s and read behind the join
+		if !found {
+			for _, in := range J.Instrs {
+				phi, ok := in.(*ssa.Phi)
+				if !ok {
+					break
+				}
+				if _, isPtr := phi.Type().Underlying().(*types.Pointer); !isPtr || phi.Referrers() == nil {
+					continue
+				}
+				cells := map[ssa.Value]bool{}
+				other := false
+				for _, e := range phi.Edges {
+					al, isAl := e.(*ssa.Alloc)
+					if !isAl || al.Referrers() == nil {
+						other = true
+						break
+					}
+					// a cell holding one row of a literal table
+					rowStores := 0
+					for _, ref := range *al.Referrers() {
+						if st, isSt := ref.(*ssa.Store); isSt && st.Addr == ssa.Value(al) {
+							if ld, isLd := st.Val.(*ssa.UnOp); isLd {
+								if ia, isIA := ld.X.(*ssa.IndexAddr); isIA && tableOf(ia.X) != nil {
+									rowStores++
+									continue
+								}
+							}
+							other = true
+						}
+					}
+					if rowStores != 1 {
+						other = true
+					}
+					cells[e] = true
+				}
+				if other || len(cells) < 2 {
+					continue
+				}
+				found = true
+				break
+			}
+		}
+		// the range variable of an unrolled loop over a literal table, read behind
+		// the join of the iterations' `break`s: every way of arriving has its own row
+		if !found {
+			for _, in := range J.Instrs {
+				fa, ok := in.(*ssa.FieldAddr)
+				if !ok {
+					continue
+				}
+				cell, ok := fa.X.(*ssa.Alloc)
+				if !ok || cell.Referrers() == nil {
+					continue
+				}
+				rows, dominating, other := 0, false, false
+				for _, ref := range *cell.Referrers() {
+					switch x := ref.(type) {
+					case *ssa.Store:
+						if x.Addr != ssa.Value(cell) {
+							other = true
+							continue
+						}
+						ld, isLd := x.Val.(*ssa.UnOp)
+						if !isLd {
+							other = true
+							continue
+						}
+						ia, isIA := ld.X.(*ssa.IndexAddr)
+						if !isIA || tableOf(ia.X) == nil {
+							other = true
+							continue
+						}
+						if _, isC := ConstInt(ia.Index); !isC {
+							other = true
+							continue
+						}
+						rows++
+						if x.Block() == J {
+							dominating = true
+						}
+					case *ssa.FieldAddr, *ssa.UnOp, *ssa.DebugRef:
+					default:
+						other = true
+					}
+				}
+				if rows >= 2 && !other && !dominating {
+					// no single row store reaches J on every way in
+					per := map[*ssa.BasicBlock]bool{}
+					for _, p := range J.Preds {
+						per[p] = true
+					}
+					if len(per) >= 2 {
+						found = true
+						break
+					}
+				}
+			}
+		}
 		if found && cloneRegionPerPred(fn, J) {
 			return true
 		}
